@@ -693,7 +693,7 @@ def tier_params(tier):
     return dict(layers=[(range(0, 4), 3, "all", "std"), (range(0, 5), 2, "full", "std"),
                         (range(0, 2), 4, "reduced", "std"), (range(4, 5), 3, "reduced", "std"),
                         (range(0, 3), 2, "all", "verr"), (range(0, 3), 3, "reduced", "verr"), (range(0, 4), 2, "full", "hooks"),
-                        (range(0, 3), 3, "reduced", "hooks")],
+                        (range(0, 2), 3, "full", "hooks"), (range(2, 3), 3, "reduced", "hooks")],
                 nb=(0, 3, 5))
 
 
